@@ -2296,7 +2296,8 @@ class EdgeQLSourceGenerator(codegen.SourceGenerator):
                 op_str = op
                 if types:
                     op_str += f'({",".join(types)})'
-                self.write(f'{op_str!r}', ';')
+                self.visit(qlast.Constant.string(op_str))
+                self.write(';')
             if node.code.from_function:
                 from_clause = f'USING {node.code.language} OPERATOR '
                 self._write_keywords(from_clause)
@@ -2304,7 +2305,8 @@ class EdgeQLSourceGenerator(codegen.SourceGenerator):
                 op_str = op
                 if types:
                     op_str += f'({",".join(types)})'
-                self.write(f'{op_str!r}', ';')
+                self.visit(qlast.Constant.string(op_str))
+                self.write(';')
             if node.code.from_expr:
                 from_clause = f'USING {node.code.language} EXPRESSION'
                 self._write_keywords(from_clause, ';')
@@ -2379,7 +2381,7 @@ class EdgeQLSourceGenerator(codegen.SourceGenerator):
         if node.code.from_function:
             from_clause = f'USING {node.code.language} FUNCTION '
             self._write_keywords(from_clause)
-            self.write(f'{node.code.from_function!r}')
+            self.visit(qlast.Constant.string(node.code.from_function))
         elif node.code.language is qlast.Language.EdgeQL:
             if node.nativecode:
                 self._write_keywords('USING')
@@ -2466,7 +2468,8 @@ class EdgeQLSourceGenerator(codegen.SourceGenerator):
 
             if node.code.from_function:
                 from_clause += 'FUNCTION'
-                code = f'{node.code.from_function!r}'
+                code = self.generate_isolated_text(
+                    qlast.Constant.string(node.code.from_function))
             elif node.code.from_cast:
                 from_clause += 'CAST'
             elif node.code.from_expr:
